@@ -62,6 +62,10 @@ macro_rules! drivers {
     ($name:expr, $f:ident, $($arg:expr),*) => {
         match $name {
             "mutex" => $f::<fiv::hist::mutex::MutexDriver>($($arg),*),
+            "semaphore" => $f::<fiv::hist::semaphore::SemDriver>($($arg),*),
+            "event" => $f::<fiv::hist::event::EventDriver>($($arg),*),
+            "oneshot" => $f::<fiv::hist::oneshot::OneshotDriver>($($arg),*),
+            "timer" => $f::<fiv::hist::timer::TimerDriver>($($arg),*),
             other => {
                 eprintln!("unknown driver {}", other);
                 2
